@@ -683,7 +683,27 @@ pub fn reset_node_endpoints(node: NodeId) {
     });
     for c in conns {
         if c.owners[0] == node || c.owners[1] == node {
-            reset_conn(&c);
+            // what the kernel does with the sockets of a killed process: an orderly close (the
+            // peer reads what is in flight, then EOF; its own writes fail) — or, when unread data
+            // was pending, a reset. Drawn per connection.
+            let fin = ctx::with(|s| s.tape.chance(1, 2));
+            if fin && c.owners[0] != c.owners[1] {
+                let dead_side = if c.owners[0] == node { 0 } else { 1 };
+                if let Ok(mut p) = c.pipes[dead_side].lock() {
+                    p.eof = true;
+                    p.wake_reader();
+                    p.wake_writer();
+                }
+                if let Ok(mut p) = c.pipes[1 - dead_side].lock() {
+                    p.reset = true;
+                    p.wake_reader();
+                    p.wake_writer();
+                }
+                ctx::with(|s| s.count("net_close_by_kill_fin"));
+            } else {
+                reset_conn(&c);
+                ctx::with(|s| s.count("net_close_by_kill_rst"));
+            }
         }
     }
     let ls: Vec<ListenerRef> = ctx::with(|s| s.net.listeners.values().cloned().collect());
